@@ -200,13 +200,51 @@ func VerifC09TooFew() {
 	verifAssert((err != nil) == (na < need[fi]), "sprintf must fail exactly when there are fewer arguments than conversions (counting each *)")
 }
 
-// print converts numbers with OFMT (not CONVFMT), integral ones as integers
+// several conversions in one format: each is rewritten on its own (no state carried from one to the next)
+func VerifC09MultiSpec() {
+	specs := []string{"%g", "%.2f", "%5.1s", "%.*d", "%G", "%-+5d", "%c", "%%", "%i", "%u", "%x", "%5g", "% d", "%#o", "%e", "%.3G"}
+	want := []string{"%.6g", "%.2f", "%5.1s", "%.*d", "%.6G", "%-+5d", "%s", "%%", "%d", "%d", "%x", "%5.6g", "% d", "%#o", "%e", "%.3G"}
+	n := verifIntRange(1, verifBound(3, 4))
+	src, exp := "", ""
+	ntypes := 0
+	for k := 0; k < n; k++ {
+		i := verifIntRange(0, len(specs)-1)
+		sepText := []string{"", " ", "x:"}[verifIntRange(0, 2)]
+		src += sepText + specs[i]
+		exp += sepText + want[i]
+		switch specs[i] {
+		case "%%":
+		case "%.*d":
+			ntypes += 2
+		default:
+			ntypes++
+		}
+	}
+	p := &interp{formatCache: map[string]cachedFormat{}}
+	format, types, err := p.parseFmtTypes(src)
+	verifAssert(err == nil && format == exp && len(types) == ntypes, "a format with several conversions is not rewritten conversion by conversion (verb table, default %g precision, one operand type per conversion and per *)")
+	// a second call is served from the cache and must give the same answer
+	f2, t2, err2 := p.parseFmtTypes(src)
+	verifAssert(err2 == nil && f2 == format && len(t2) == len(types), "the cached translation of a format differs from the first one")
+}
+
+// print converts numbers with OFMT (not CONVFMT), integral ones as integers, in every output mode
 func VerifC09PrintOFMT() {
 	p := &interp{convertFormat: "%.2g", outputFormat: "%.3g", outputFieldSep: " ", outputRecordSep: "\n"}
+	mode := verifIntRange(0, 2)
+	fieldSep := " "
+	switch mode {
+	case 1:
+		p.outputMode, p.csvOutputConfig = CSVMode, CSVOutputConfig{Separator: ','}
+		fieldSep = ","
+	case 2:
+		p.outputMode, p.csvOutputConfig = TSVMode, CSVOutputConfig{Separator: '\t'}
+		fieldSep = "\t"
+	}
 	vals := []float64{3.14159, 1000000.5, 2, -0.125, 1e30}
 	want := []string{"3.14", "1e+06", "2", "-0.125", "1e+30"}
 	i := verifIntRange(0, len(vals)-1)
 	var out bytes.Buffer
 	err := p.printArgs(&out, []value{num(vals[i]), str("s")})
-	verifAssert(err == nil && out.String() == want[i]+" s\n", "print does not write numbers with OFMT (integral ones as integers)")
+	verifAssert(err == nil && out.String() == want[i]+fieldSep+"s\n", "print does not write numbers with OFMT (integral ones as integers)")
 }
